@@ -339,8 +339,9 @@ Lemma print_int_li : forall z, (- two63 <= z < two63)%Z ->
 Proof.
   intros z Hz. unfold print_int. cbn [spec_li n_conv n_long n_plus n_space n_zero n_alt n_width].
   unfold int_arg. cbn [spec_li n_conv n_long]. replace (conv_signed 105) with true by reflexivity.
-  assert (Hw : wrap_signed two64 two63 z = z).
-  { change two64 with (2 * two63)%Z. apply wrap_signed_id; unfold two63 in *; lia. }
+  change (spec_half spec_li) with two63.
+  assert (Hw : wrap_signed (2 * two63) two63 z = z).
+  { apply wrap_signed_id; unfold two63 in *; lia. }
   rewrite Hw.
   replace (conv_base 105) with 10 by reflexivity. replace (105 =? 88) with false by reflexivity.
   unfold pad. cbn [Nat.sub repeat app]. reflexivity.
@@ -369,7 +370,7 @@ Proof.
   - cbn [app]. rewrite skip_ws_nonspace by reflexivity.
     cbn [scan_sign]. replace (c_minus =? c_minus) with true by reflexivity.
     rewrite scan_int_body_dec by assumption.
-    assert (Hst : store_int (cf_int_signext cf) spec_li true mag = z).
+    assert (Hst : store_int (int_restore cf spec_li) spec_li true mag = z).
     { unfold store_int. cbn [spec_li n_conv n_long].
       replace (conv_signed 105) with true by reflexivity.
       subst mag. rewrite Z2N.id by lia.
@@ -382,7 +383,7 @@ Proof.
     cbn [scan_sign]. rewrite Hm, Hp.
     change (d0 :: t ++ rest) with ((d0 :: t) ++ rest). rewrite <- E.
     rewrite scan_int_body_dec by assumption.
-    assert (Hst : store_int (cf_int_signext cf) spec_li false mag = z).
+    assert (Hst : store_int (int_restore cf spec_li) spec_li false mag = z).
     { unfold store_int. cbn [spec_li n_conv n_long].
       replace (conv_signed 105) with true by reflexivity.
       subst mag. rewrite Z2N.id by lia.
@@ -845,14 +846,19 @@ Proof.
 Qed.
 
 (* the text of a signed decimal directive (d, i) with any of the flags + space 0 and a width *)
-Definition in_range (long : bool) (z : Z) : Prop :=
-  if long then (- two63 <= z < two63)%Z else (- two31 <= z < two31)%Z.
+(* z fits the C type the directive names (hh: char, h: short, none: int, l ll j z t q: 64 bits) *)
+Definition in_range (sp : nspec) (z : Z) : Prop := (- spec_half sp <= z < spec_half sp)%Z.
 
-Lemma int_arg_signed : forall sp z, conv_signed (n_conv sp) = true -> in_range (n_long sp) z -> int_arg sp z = z.
+Lemma spec_half_bounds : forall sp, (0 < spec_half sp <= two63)%Z.
 Proof.
-  intros sp z Hc Hz. unfold int_arg. rewrite Hc. unfold in_range in Hz. destruct (n_long sp).
-  - change two64 with (2 * two63)%Z. apply wrap_signed_id; unfold two63 in *; lia.
-  - change two32 with (2 * two31)%Z. apply wrap_signed_id; unfold two31 in *; lia.
+  intros sp. unfold spec_half, two63, two31. destruct (n_long sp); [lia|].
+  destruct (n_short sp) as [|[|k]]; lia.
+Qed.
+
+Lemma int_arg_signed : forall sp z, conv_signed (n_conv sp) = true -> in_range sp z -> int_arg sp z = z.
+Proof.
+  intros sp z Hc Hz. unfold int_arg. rewrite Hc. unfold in_range in Hz.
+  pose proof (spec_half_bounds sp). apply wrap_signed_id; lia.
 Qed.
 
 Lemma conv_signed_cases : forall c, conv_signed c = true -> c = 100 \/ c = 105.
@@ -863,7 +869,7 @@ Qed.
 Lemma repeat_snoc : forall (c : byte) k, repeat c k ++ [c] = repeat c (S k).
 Proof. intros c k. induction k; simpl; [reflexivity|]. now rewrite IHk. Qed.
 
-Lemma print_int_signed_shape : forall sp z, conv_signed (n_conv sp) = true -> in_range (n_long sp) z ->
+Lemma print_int_signed_shape : forall sp z, conv_signed (n_conv sp) = true -> in_range sp z ->
   exists k1 sg k2,
     print_int sp z = repeat c_space k1 ++ sg ++ repeat c_zero k2 ++ print_nat 10 false (Z.to_N (Z.abs z))
     /\ sign_text sg /\ sign_neg sg = (z <? 0)%Z /\ (n_zero sp = false -> k2 = O).
@@ -900,15 +906,16 @@ Proof.
            repeat split; try reflexivity. left; reflexivity.
 Qed.
 
-Lemma in_range_64 : forall l z, in_range l z -> (- two63 <= z < two63)%Z.
-Proof. intros [|] z H; unfold in_range, two63, two31 in *; lia. Qed.
+Lemma in_range_64 : forall sp z, in_range sp z -> (- two63 <= z < two63)%Z.
+Proof. intros sp z H. unfold in_range in H. pose proof (spec_half_bounds sp). lia. Qed.
 
 Lemma store_int_signed : forall signext ssp z,
-  conv_signed (n_conv ssp) = true -> in_range (n_long ssp) z ->
+  conv_signed (n_conv ssp) = true -> in_range ssp z ->
   (n_long ssp = false -> signext = true) ->
   store_int signext ssp (z <? 0)%Z (Z.to_N (Z.abs z)) = z.
 Proof.
   intros signext ssp z Hc Hz Hse. pose proof (in_range_64 _ _ Hz) as H64.
+  pose proof (spec_half_bounds ssp) as Hb.
   unfold store_int. rewrite Hc. rewrite Z2N.id by lia.
   assert (Hv : (if (z <? 0)%Z
                 then if (two63 <? Z.abs z)%Z then (- two63)%Z else (- Z.abs z)%Z
@@ -916,11 +923,11 @@ Proof.
   { destruct (Z.ltb_spec z 0).
     - destruct (Z.ltb_spec two63 (Z.abs z)); unfold two63 in *; lia.
     - destruct (Z.ltb_spec (two63 - 1) (Z.abs z)); unfold two63 in *; lia. }
-  rewrite Hv. unfold in_range in Hz. destruct (n_long ssp).
+  rewrite Hv. unfold in_range in Hz. destruct (n_long ssp) eqn:El.
   - change two64 with (2 * two63)%Z. apply wrap_signed_id; unfold two63 in *; lia.
   - rewrite (Hse eq_refl). cbn [andb].
-    unfold wrap_signed. rewrite Z.mod_mod by (unfold two32; lia).
-    change two32 with (2 * two31)%Z. apply wrap_signed_id; unfold two31 in *; lia.
+    unfold wrap_signed at 1. rewrite Z.mod_mod by lia.
+    fold (wrap_signed (2 * spec_half ssp) (spec_half ssp) z). apply wrap_signed_id; lia.
 Qed.
 
 Lemma conv_signed_is_int : forall c, conv_signed c = true -> conv_is_int c = true.
@@ -932,8 +939,8 @@ Proof. intros c H. destruct (conv_signed_cases c H) as [-> | ->]; reflexivity. Q
 Theorem int_dec_roundtrip : forall cf sp ssp z rest,
   conv_signed (n_conv sp) = true ->
   (n_conv ssp = 100 \/ (n_conv ssp = 105 /\ n_zero sp = false)) ->
-  in_range (n_long sp) z -> in_range (n_long ssp) z ->
-  (n_long ssp = false -> cf_int_signext cf = true) ->
+  in_range sp z -> in_range ssp z ->
+  (n_long ssp = false -> int_restore cf ssp = true) ->
   stops_int rest ->
   scan_num cf ssp (print_num sp (VInt z) ++ rest) = Some (VInt z, length (print_num sp (VInt z))).
 Proof.
@@ -1019,8 +1026,8 @@ Lemma conv_unsigned_facts : forall c, conv_unsigned c ->
   conv_signed c = false /\ conv_is_int c = true /\ ubase (conv_base c) /\ (c =? 105) = false.
 Proof. intros c [-> | [-> | [-> | ->]]]; repeat split; try reflexivity; unfold ubase; cbn; auto. Qed.
 
-Definition urange (long : bool) (z : Z) : Prop :=
-  if long then (- two63 <= z < two63)%Z else (0 <= z < two32)%Z.
+Definition urange (sp : nspec) (z : Z) : Prop :=
+  if n_long sp then (- two63 <= z < two63)%Z else (0 <= z < 2 * spec_half sp)%Z.
 
 Lemma scan_unsigned_shape : forall sconv b upper k1 k2 mag rest,
   conv_unsigned sconv -> conv_base sconv = b -> ubase b -> stops_base b rest ->
@@ -1047,21 +1054,26 @@ Proof.
 Qed.
 
 Lemma store_unsigned : forall signext ssp sp z,
-  conv_unsigned (n_conv sp) -> conv_unsigned (n_conv ssp) -> n_long ssp = n_long sp -> urange (n_long sp) z ->
+  conv_unsigned (n_conv sp) -> conv_unsigned (n_conv ssp) -> n_long ssp = n_long sp -> n_short ssp = n_short sp ->
+  urange sp z ->
   store_int signext ssp false (Z.to_N (Z.abs (int_arg sp z))) = z.
 Proof.
-  intros signext ssp sp z Hc Hsc Hlong Hz.
+  intros signext ssp sp z Hc Hsc Hlong Hshort Hz.
   destruct (conv_unsigned_facts _ Hc) as (Hs & _). destruct (conv_unsigned_facts _ Hsc) as (Hs' & _).
-  unfold store_int. rewrite Hs'. rewrite Hlong. unfold int_arg. rewrite Hs. unfold urange in Hz.
-  destruct (n_long sp).
-  - assert (H0 : (0 <= z mod two64 < two64)%Z) by (apply Z.mod_pos_bound; reflexivity).
+  assert (Hh : spec_half ssp = spec_half sp) by (unfold spec_half; now rewrite Hlong, Hshort).
+  pose proof (spec_half_bounds sp) as Hb.
+  unfold store_int. rewrite Hs'. rewrite Hlong, Hh. unfold int_arg. rewrite Hs. unfold urange in Hz.
+  destruct (n_long sp) eqn:El.
+  - assert (Hsh : spec_half sp = two63) by (unfold spec_half; now rewrite El). rewrite Hsh.
+    change (2 * two63)%Z with two64.
+    assert (H0 : (0 <= z mod two64 < two64)%Z) by (apply Z.mod_pos_bound; reflexivity).
     rewrite Z2N.id by lia. rewrite Z.abs_eq by lia.
     destruct (Z.ltb_spec (two64 - 1) (z mod two64)); [lia|].
     unfold wrap_signed. rewrite Z.mod_mod by (unfold two64; lia).
     change two64 with (2 * two63)%Z. apply wrap_signed_id; unfold two63 in *; lia.
-  - assert (H0 : (z mod two32 = z)%Z) by (apply Z.mod_small; lia).
+  - assert (H0 : (z mod (2 * spec_half sp) = z)%Z) by (apply Z.mod_small; lia).
     rewrite H0. rewrite Z2N.id by lia. rewrite Z.abs_eq by lia.
-    destruct (Z.ltb_spec (two64 - 1) z); [unfold two64, two32 in *; lia|].
+    destruct (Z.ltb_spec (two64 - 1) z); [unfold two64, two63 in *; lia|].
     rewrite H0. rewrite andb_false_r. reflexivity.
 Qed.
 
@@ -1070,11 +1082,11 @@ Qed.
    read back as -5); without `l` for 0 <= z < 2^32 *)
 Theorem int_unsigned_roundtrip : forall cf sp ssp z rest,
   conv_unsigned (n_conv sp) -> conv_unsigned (n_conv ssp) -> conv_base (n_conv ssp) = conv_base (n_conv sp) ->
-  n_alt sp = false -> n_long ssp = n_long sp -> urange (n_long sp) z ->
+  n_alt sp = false -> n_long ssp = n_long sp -> n_short ssp = n_short sp -> urange sp z ->
   stops_base (conv_base (n_conv sp)) rest ->
   scan_num cf ssp (print_num sp (VInt z) ++ rest) = Some (VInt z, length (print_num sp (VInt z))).
 Proof.
-  intros cf sp ssp z rest Hc Hsc Hbase Halt Hlong Hz Hr.
+  intros cf sp ssp z rest Hc Hsc Hbase Halt Hlong Hshort Hz Hr.
   destruct (conv_unsigned_facts _ Hc) as (Hs & Hi & Hb & _).
   destruct (conv_unsigned_facts _ Hsc) as (Hs' & Hi' & _ & _).
   unfold print_num, scan_num. rewrite Hi, Hi'. unfold print_int. rewrite Hs, Halt.
@@ -1083,13 +1095,13 @@ Proof.
   - change (repeat c_zero ?k ++ ?d) with (repeat c_space 0 ++ repeat c_zero k ++ d).
     rewrite <- !app_assoc.
     rewrite (scan_unsigned_shape (n_conv ssp) _ _ O _ _ rest Hsc Hbase Hb Hr).
-    rewrite (store_unsigned _ ssp sp z Hc Hsc Hlong Hz).
+    rewrite (store_unsigned _ ssp sp z Hc Hsc Hlong Hshort Hz).
     f_equal. f_equal. rewrite !app_length, !repeat_length. simpl. lia.
   - match goal with |- context [repeat c_space ?k ++ ?d] =>
       change (repeat c_space k ++ d) with (repeat c_space k ++ repeat c_zero 0 ++ d) end.
     rewrite <- !app_assoc.
     rewrite (scan_unsigned_shape (n_conv ssp) _ _ _ O _ rest Hsc Hbase Hb Hr).
-    rewrite (store_unsigned _ ssp sp z Hc Hsc Hlong Hz).
+    rewrite (store_unsigned _ ssp sp z Hc Hsc Hlong Hshort Hz).
     f_equal. f_equal. rewrite !app_length, !repeat_length. simpl. lia.
 Qed.
 
@@ -1097,17 +1109,18 @@ Qed.
 Definition int_directive_ok (cf : config) (sp ssp : nspec) (z : Z) (after : text) : Prop :=
   (conv_signed (n_conv sp) = true /\
    (n_conv ssp = 100 \/ (n_conv ssp = 105 /\ n_zero sp = false)) /\
-   in_range (n_long sp) z /\ in_range (n_long ssp) z /\
-   (n_long ssp = false -> cf_int_signext cf = true) /\ stops_int after)
+   in_range sp z /\ in_range ssp z /\
+   (n_long ssp = false -> int_restore cf ssp = true) /\ stops_int after)
   \/
   (conv_unsigned (n_conv sp) /\ conv_unsigned (n_conv ssp) /\
-   conv_base (n_conv ssp) = conv_base (n_conv sp) /\ n_alt sp = false /\ n_long ssp = n_long sp /\
-   urange (n_long sp) z /\ stops_base (conv_base (n_conv sp)) after).
+   conv_base (n_conv ssp) = conv_base (n_conv sp) /\ n_alt sp = false /\
+   n_long ssp = n_long sp /\ n_short ssp = n_short sp /\
+   urange sp z /\ stops_base (conv_base (n_conv sp)) after).
 
 Theorem int_directive_roundtrip : forall cf sp ssp z after, int_directive_ok cf sp ssp z after ->
   scan_num cf ssp (print_num sp (VInt z) ++ after) = Some (VInt z, length (print_num sp (VInt z))).
 Proof.
-  intros cf sp ssp z after [(H1 & H2 & H3 & H4 & H5 & H6) | (H1 & H2 & H3 & H4 & H5 & H6 & H7)].
+  intros cf sp ssp z after [(H1 & H2 & H3 & H4 & H5 & H6) | (H1 & H2 & H3 & H4 & H5 & H5' & H6 & H7)].
   - now apply int_dec_roundtrip.
   - now apply int_unsigned_roundtrip.
 Qed.
